@@ -394,6 +394,18 @@ example : CfgCtx exSetup (((exSetup.config.set "generation_options.rails.input" 
   refine ⟨⟨?_, ?_, ?_⟩, ?_⟩ <;> ctx_norm <;> rfl
 
 open NemoVerif.RailsInterp in
+/-- **several calls on ONE conversation at the interpreter level, finite part** (kernel evaluation, labelled as such): for the
+    concrete set-up, five conversations of 2–3 calls with different option subsets — among them "input only, blocked
+    (refusal ⇒ `$skip_output_rails` set and reset), then output only with a bot message" — the history a call ends with being
+    the prefix of the next call's history: the interpreter loop on the generated llm_flows.co yields, call by call, the traces of
+    `PipelineOpts.session` (every turn ends quiescent, the flag does not leak).  The unbounded statement per call is
+    `interp_turn_runs_from`.  (With the seeded change C16-a in llm_flows.co the `rfl` facts about `process bot message` fail and
+    with them this whole module: obligations 0/584.) -/
+theorem session_refines_interp_partial :
+    (exSessions.all fun cs => driveCalls exSetup 80 [] cs == sessionTraces exSetup cs) = true := by
+  decide +kernel
+
+open NemoVerif.RailsInterp in
 /-- non-vacuity: the concrete set-up is well-formed (finite facts) -/
 theorem exSetup_wf : exSetup.WF :=
   ⟨by decide, by decide, by decide, by decide⟩
